@@ -29,7 +29,7 @@ HIST_ID = "2095-11-03_USA_G"
 
 
 def bounds(tier):
-    return {"perturbed_statuses": 6, "locations": 3, "replacements": PERT, "estimators": ["np2", "ga1", "bs1 (B=10)", "bs1 (B=3, fixed effects)"], "outlier_models": [False, True]}
+    return {"perturbed_statuses": 7, "locations": 3, "replacements": PERT, "estimators": ["np2", "ga1", "bs1 (B=10)", "bs1 (B=3, fixed effects)"], "outlier_models": [False, True]}
 
 
 def cases(tier, seed):
@@ -39,13 +39,15 @@ def cases(tier, seed):
         for loc in ("pop0", "newcounty", "newstate"):
             ptypes.append((st, loc))
     ptypes.append(("state_blocklisted", "newstate"))
+    # outstanding by a fraction of a percent (99.6 with the threshold at 100)
+    ptypes += [("nonrep_partial99", "pop0"), ("nonrep_partial99", "newcounty")]
     for st, loc in ptypes:
         for setup in ("np2", "ga1", "bs1", "bs1fe"):
             for outlier in (False, True):
                 if tier == "quick" and outlier and setup in ("ga1", "bs1fe"):
                     continue
                 out.append({"kind": "pair", "status": st, "loc": loc, "setup": setup, "outlier": outlier, "seed": seed})
-    for est in (["turnout"], ["dem"], ["turnout", "dem"]):
+    for est in (["turnout"], ["dem"], ["turnout", "dem"], ["dem", "turnout"], ["gop", "turnout", "dem"]):
         for pm in ("nonparametric", "gaussian"):
             out.append({"kind": "historical", "estimands": est, "pm": pm, "seed": seed})
     # district office with three-part unit ids: an unexpected unit's count may only move its own district / county groups
@@ -111,6 +113,8 @@ def _pair_case(case, cov, viol):
     probe = E.make_probe(case["seed"], 0, "nonrep_partial" if st.startswith("nonrep_partial") else st, case["loc"], weights=w)
     if st == "nonrep_partial60":
         probe["pev"] = 60.0
+    if st == "nonrep_partial99":
+        probe["pev"] = 99.6
     units.append(probe)
     units.append(E.make_probe(case["seed"], 1, "nonrep0", "pop1", weights=w))
     if st == "state_blocklisted":
